@@ -27,6 +27,10 @@ def main():
     rep = vlib.Report("C11")
     cov = {"states": 0, "transitions": 0, "traces_validated_against_impl": 0, "samples": [], "tlc_runs": []}
     texts = doctexts.TEXTS
+    # the named deviations of Lsp.tla (a memo that survives an edit; the first instead of the last content change)
+    # must be told apart from the design by the specification's own invariants
+    vlib.deviation_caught("Lsp.tla", "DEV_Lsp_StaleMemo.cfg", "CacheCoherent", cov)
+    vlib.deviation_caught("Lsp.tla", "DEV_Lsp_FirstChangeWins.cfg", "DocsFollowProtocol", cov)
     cfg = "MC_Lsp_C11_3.cfg" if tier == "quick" else "MC_Lsp_C11_4.cfg"
     r = vlib.tlc_check("Lsp.tla", cfg, workers=vlib.NCPU, timeout=3600)
     cov["states"] += r["states"]
